@@ -80,6 +80,11 @@ var failClasses = []failClass{
 	{"unknown-block:yield-with-content", "{{ yield zzNope() content }}\nyc\n{{ end }}", true, true},
 	{"yield-argument-without-value:with-content", "{{ yield zb(q) content }}\nyc\n{{ end }}", true, true},
 	{"index-map-key-nil", `{{ root.One[nil] }}`, true, true},
+	// a map with an interface key type indexed with something that cannot be hashed
+	{"index-map-key-unhashable", `{{ ifmap[names] }}`, true, true},
+	// a slice piped into a variadic function; a field promoted through an embedded pointer that is nil
+	{"arg-kind:slice-piped-into-variadic", `{{ names | vsfn }}`, true, true},
+	{"nil-dereference-field:promoted-through-nil-embedded-pointer", `{{ nilemb.MetaName }}`, true, true},
 	// a call of a missing map entry inside a larger expression; operands and arguments that reflection rejects
 	{"call-target-kind:missing-map-entry-in-expression", `{{ 1 + item.M.zz() }}`, true, true},
 	{"operand-kind:equal:bytes-and-string", `{{ bytesv == "ab" }}`, true, true},
